@@ -34,8 +34,14 @@ def run(pid, tier, replay=None):
     cases = r.cases
     if not cases:
         raise vf.MachineryError("no cases exported")
+    def contended(c):
+        """>= 2 files that each make the reporter run (these are the cases where callbacks can overlap)"""
+        return sum(1 for its in c["items"].values() if any(i in ("E", "S", "W") for i in its)) >= 2
     if tier == "quick":
-        pick = rng.sample(range(len(cases)), min(len(cases), 160))
+        hot = [i for i, c in enumerate(cases) if contended(c)]
+        warm = [i for i, c in enumerate(cases) if sum(1 for its in c["items"].values() if "W" in its) >= 2]
+        pick = sorted(set(rng.sample(range(len(cases)), min(len(cases), 100)) + rng.sample(hot, min(len(hot), 80))
+                          + rng.sample(warm, min(len(warm), 40))))
         pars = (1, 4, 16)
         nseeds = 2
     else:
@@ -51,6 +57,13 @@ def run(pid, tier, replay=None):
                 runs.append({"id": rid, "case": ci, "items": c["items"], "abortAt": c["abortAt"], "mustFail": c["mustFail"],
                              "par": par, "seed": 0 if s == 0 else vf.seed() * 1000 + s, "chain": (rid % 2 == 0)})
                 rid += 1
+                # flavour: the last task's file is an overriding descriptor.proto that nobody imports explicitly;
+                # an error reported while compiling it must still fail the compilation
+                last = sorted(c["items"])[-1]
+                if s == 1 and len(c["items"]) >= 2 and all(i in ("E", "S") for i in c["items"][last]):
+                    runs.append({"id": rid, "case": ci, "items": c["items"], "abortAt": c["abortAt"], "mustFail": c["mustFail"],
+                                 "par": par, "seed": vf.seed() * 1000 + 17, "chain": False, "dp": last})
+                    rid += 1
     runfile = os.path.join(wd, "runs.jsonl")
     tracefile = os.path.join(wd, "trace_all.ndjson")
     vf.jsonl_write(runfile, runs)
@@ -62,7 +75,7 @@ def run(pid, tier, replay=None):
     feats = set()
     for o in results:
         sp = by_id[o["id"]]
-        small = {k: sp[k] for k in ("items", "abortAt", "par", "seed", "chain")}
+        small = {k: sp[k] for k in ("items", "abortAt", "par", "seed", "chain", "dp") if k in sp}
         feats.add((tuple(sorted(tuple(v) for v in sp["items"].values())), sp["abortAt"], sp["par"]))
         if o.get("hung"):
             verdict.disagree("hang", small, "Compile did not return")
@@ -112,7 +125,7 @@ def run(pid, tier, replay=None):
         nxt = lines[off].strip() if off < len(lines) else "?"
         ev = json.loads(nxt).get("ev", "?") if nxt.startswith("{") else "?"
         sp = by_id[rid_]
-        verdict.disagree(what + ":" + ev, {k2: sp[k2] for k2 in ("items", "abortAt", "par", "seed", "chain")},
+        verdict.disagree(what + ":" + ev, {k2: sp[k2] for k2 in ("items", "abortAt", "par", "seed", "chain", "dp") if k2 in sp},
                          "matched %s then %s" % ([x.strip() for x in lines[:off]][-8:], nxt))
         pending = pending[k + 1:]
         if len(verdict.violations) > 20:
